@@ -47,6 +47,14 @@ CHECKS = {
    text="The action LayerForward of spec/Alg.tla defines forward(x) = W.x + b over exact integers for every enumerated (size_in, size_out, rank profile, batch shape); the harness constructs the real layer, checks parameter registration, overwrites parameters with the model's integer fill and compares forward bit-for-bit for 0..3 batch dims, float64/float32; on the random initialisation forward and parameter gradients are compared with autograd of the dense affine map.",
    note="Order 1-2 layers exhaustive over sizes {1,2,3}, canonical order 3-4 up to size 5; initialiser statistics not covered.",
    technique="TLA+ dense affine-map semantics, TLC enumeration, replay into torch.nn module with exact comparison + autograd cross-check"),
+ "C01": dict(level=MC, design="§6 C01",
+   text="spec/ChopDefs.tla transcribes rank_chop (Python and C++) over exact integer energies with its contract; spec/Trunc.tla is the error ledger of the truncation sweep (threshold eps/sqrt(d-1) relative to the current remainder, caps, discarded energy). TLC checks the contract on every small spectrum, and ErrBound / RankBound on every sweep with environment-chosen spectra; every state of the chop model is executed on the real rank_chop, and every nested sweep behaviour (incl. exact threshold ties and saturated bonds) is realised as arrays with exactly those unfolding spectra in 9 variants (torch/numpy, singleton modes, operator shape, complex, float32, rotated, tall, flat+shape) and decomposed by torchtt.TT; verdict by the property's own statements (shape, rank bounds, measured error <= eps||A||).",
+   note="The numerical establishment of the bound is a measurement on model-generated inputs (LAPACK trusted); non-nested spectra only via random arrays (exploration-grade part, counted separately in the evidence).",
+   technique="TLA+ transcription of rank_chop + truncation ledger, TLC invariants, behaviours realised as superdiagonal arrays and replayed into torchtt.TT"),
+ "C02": dict(level=MC, design="§6 C02",
+   text="Same chop and ledger models as C01 (right-to-left processing order); every nested behaviour is realised as a TT with exactly the model's spectra, stored with ranks inflated through non-orthogonal gauges and cores rescaled by 1e4/1e-4 (also complex, operator, float32), then x.round(eps, rmax) is run: same shape, no rank grows, ranks <= rmax and <= exact rank, error <= eps||x|| unless capped, operand bitwise unchanged with consistent metadata.",
+   note="As C01; conditioning of the gauges up to ~1e8.",
+   technique="TLA+ truncation ledger, TLC invariants, behaviours realised as over-parameterised TTs and replayed into TT.round"),
 }
 
 NA = {}
